@@ -35,6 +35,28 @@ type poolEv struct {
 	Buf int    `json:"buf"`
 }
 
+// failingReader hands out `left` bytes and then fails
+type failingReader struct {
+	src  *rand.Rand
+	left int
+}
+
+func (f *failingReader) Read(p []byte) (int, error) {
+	if f.left <= 0 {
+		return 0, fmt.Errorf("harness: randomness source exhausted")
+	}
+	n := len(p)
+	if n > f.left {
+		n = f.left
+	}
+	f.src.Read(p[:n])
+	f.left -= n
+	if n < len(p) {
+		return n, fmt.Errorf("harness: randomness source exhausted")
+	}
+	return n, nil
+}
+
 type c17Handle struct {
 	id   int
 	g    *circuit.Garbled
@@ -170,6 +192,15 @@ func c17Stress(tr, out *ndWriter, rounds int, sd int64) {
 					case k < 9 && len(released) > 0:
 						// releasing twice is harmless
 						released[grng.Intn(len(released))].g.Release()
+					case k == 9 && grng.Intn(2) == 0:
+						// a garbling that fails half way (the randomness source gives out after R, or in the middle of
+						// the input labels): whatever it had taken from the pool must not end up shared by later garblings
+						fr := &failingReader{src: grng, left: []int{0, 8, 16, 24, 32, 16 + 16*grng.Intn(nin+1), 16 + 16*nin + 8}[grng.Intn(7)]}
+						key := kbuf[:16]
+						grng.Read(key)
+						if gb, err := c.Garble(fr, key); err == nil {
+							gb.Release()
+						}
 					default:
 						in := new(big.Int).Rand(grng, big.NewInt(256))
 						if _, err := c.Compute([]*big.Int{in}); err != nil {
